@@ -595,7 +595,8 @@ def rule_r7(prog, res):
     n = 0
     for cn in ('spyne.protocol.xml:XmlDocument',
                'spyne.protocol.soap.soap11:Soap11',
-               'spyne.protocol.json:_SpyneJsonRpc1'):
+               'spyne.protocol.json:_SpyneJsonRpc1',
+               'spyne.protocol.dictdoc.hier:HierDictDocument'):
         f = prog.cls(cn).methods.get('deserialize')
         if f is None:
             continue
@@ -609,7 +610,11 @@ def rule_r7(prog, res):
             n += 1
             atoms = [(t, p_) for t, p_ in guardspec.atoms_at(a, f.node)
                      if 'in_body_doc' in t and 'Fault' not in t]
-            ok = atoms == [('ctx.in_body_doc is None', True)]
+            ok = atoms == [('ctx.in_body_doc is None', True)] or (
+                not atoms and any(t in ('doc is None',
+                                        'ctx.in_body_doc.get(class_name, None)'
+                                        ' is None') and p_
+                                  for t, p_ in guardspec.atoms_at(a, f.node)))
             where = '%s:%d' % (f.module.relpath, a.lineno)
             res.ob('R7', where, '%s builds the placeholder list under %s' % (
                 f.qualname, ['%s%s' % ('' if p_ else 'not ', t)
@@ -623,7 +628,7 @@ def rule_r7(prog, res):
                             'its single argument belongs and wrapped methods '
                             'skip the missing-member checks' % (
                                 f.qualname, [t for t, _ in atoms]))
-    res.floor('R7', 'placeholder argument lists', n, 3)
+    res.floor('R7', 'placeholder argument lists', n, 4)
 
 
 # ------------------------------------------------------------------- R8
